@@ -14,7 +14,7 @@ LEVEL_TEXT = ("Deductive: net_liquidation_value raises EndOfEpisodeError iff ask
               "_reward.calculate is the recorded finding D6 (identified by call site; any other escape is reported).")
 EXPLANATION = LEVEL_TEXT
 EXTRA_ASSUMPTIONS = [
-    "ASSUMED contracts (not verified against their bodies here): TradingEnv._process_latent_events/_process_nonlatent_events (deliver events; quotes stay within the property's quantifier; only ever set _done), TradingEnv.notify for EventStep/EventDone (raises nothing), IState.__call__ (raises nothing)",
+    "ASSUMED contracts (not verified against their bodies here): IState.__call__ (raises nothing), Transmitter._next (StopIteration or two ordered batches); input assumption of TradingEnv._process_*_events (verified otherwise): delivered quotes stay within the property's quantifier",
 ]
 
 USES_SUM_LEMMAS = True
